@@ -133,6 +133,16 @@ SetAt(i, pos, j) ==
   /\ LET nv == <<"arr", [slot[i][2] EXCEPT ![pos + 1] = slot[j]]>> IN Fits(nv) /\ slot' = [slot EXCEPT ![i] = nv]
   /\ Log(<<"set_at", i, pos, j>>)
 
+(* --- assignment from a part of the target itself (a = a[pos], a = a.at(key)): the value of the part, read before anything changes --- *)
+AssignElem(i, pos) ==
+  /\ IsArr(slot[i]) /\ pos \in 0..(Len(slot[i][2]) - 1)
+  /\ slot' = [slot EXCEPT ![i] = slot[i][2][pos + 1]]
+  /\ Log(<<"assign_elem", i, pos>>)
+AssignMember(i, k) ==
+  /\ IsObj(slot[i]) /\ Find(slot[i][2], k) # 0
+  /\ slot' = [slot EXCEPT ![i] = slot[i][2][Find(slot[i][2], k)][2]]
+  /\ Log(<<"assign_member", i, k>>)
+
 (* --- both --------------------------------------------------------------- *)
 Clear(i) == IsCont(slot[i]) /\ slot' = [slot EXCEPT ![i] = <<slot[i][1], <<>>>>] /\ Log(<<"clear", i>>)
 Reserve(i, n) == IsCont(slot[i]) /\ UNCHANGED slot /\ Log(<<"reserve", i, n>>)       \* capacity is not observable
@@ -141,12 +151,12 @@ Next ==
   \/ \E i \in Slots, l \in Lits : Assign(i, l)
   \/ \E i \in Slots, j \in Slots : CopyAssign(i, j) \/ CopyCtor(i, j) \/ MoveAssign(i, j) \/ MoveCtor(i, j) \/ Swap(i, j)
   \/ \E i \in Slots, k \in Keys, j \in Slots : InsertOrAssign(i, k, j) \/ TryEmplace(i, k, j)
-  \/ \E i \in Slots, k \in Keys : EraseKey(i, k)
+  \/ \E i \in Slots, k \in Keys : EraseKey(i, k) \/ AssignMember(i, k)
   \/ \E i \in Slots, k1 \in Keys, k2 \in Keys : InsertRange(i, <<k1, k2>>)
   \/ \E i \in Slots, k1 \in Keys, k2 \in Keys, k3 \in Keys : (MaxSize >= 3 /\ k1 # k3 /\ InsertRange(i, <<k1, k2, k3>>))
   \/ \E i \in Slots, j \in Slots : Merge(i, j, TRUE) \/ Merge(i, j, FALSE) \/ PushBack(i, j)
   \/ \E i \in Slots, j \in Slots, p \in 0..MaxSize : InsertAt(i, p, j) \/ SetAt(i, p, j)
-  \/ \E i \in Slots, p \in 0..MaxSize : EraseAt(i, p) \/ Resize(i, p) \/ EraseMemberAt(i, p)
+  \/ \E i \in Slots, p \in 0..MaxSize : EraseAt(i, p) \/ Resize(i, p) \/ EraseMemberAt(i, p) \/ AssignElem(i, p)
   \/ \E i \in Slots, a \in 0..MaxSize, b \in 0..MaxSize : EraseRange(i, a, b) \/ EraseMemberRange(i, a, b)
   \/ \E i \in Slots : Clear(i) \/ Reserve(i, 8)
 
